@@ -243,6 +243,9 @@ pub fn dict_match_case(cx: &mut Ctx, dictv: usize, tk: u64, tn: usize, tseed: u6
         let mut dict = build_dict(dictv, &train).map_err(|e| format!("setup: {}", e))?;
         let conc = if dictv % N_DICTV == 2 { ConcurrentSuffixArrayDictionary::new(&train, SuffixArrayDictionaryConfig::default()).ok() } else { None };
         let text = dict.dictionary_text().to_vec();
+        // housekeeping before the searches (results are not the property's business)
+        let _ = guarded(|| { let _ = dict.validate(); let _ = dict.cache_stats(); let _ = dict.memory_usage(); });
+        if queries.len() % 2 == 0 { dict.reset_stats(); }
         if dict.data() != &text[..] || dict.dictionary_size() != text.len() { return Ok(Some("data() / dictionary_size() disagree with dictionary_text()".to_string())); }
         for (i, q) in queries.iter().enumerate() {
             let x = hist_payload(&train, opf(q, 0), opf(q, 1) as usize, opf(q, 2));
@@ -657,7 +660,10 @@ pub fn bitstream_case(cx: &mut Ctx, ops: &[Op]) {
                         Ok(m) => {
                             if !is_valid(&m3) { return Some(format!("op {}: the constructor accepts the invalid match {:?}", i, m3)); }
                             if from_match(&m) != m3 || Some(&m) != to_match(&m3).as_ref() { return Some(format!("op {}: the constructor built {:?} for {:?}", i, m, m3)); }
-                            if m.length() as u64 != m3.2 || m.compression_type() as u8 != m3.0 || CompressionType::from_u8(m3.0).ok() != Some(m.compression_type()) { return Some(format!("op {}: accessors of {:?} disagree with its fields", i, m)); }
+                            // (compression_type / length / distance are what validate and encode_match read)
+                            let want_d = match m3.0 { 0 | 1 => 0, 2 => 1, _ => m3.1 };
+                            if m.length() as u64 != m3.2 || m.distance() as u64 != want_d || m.compression_type() as u8 != m3.0 || CompressionType::from_u8(m3.0).ok() != Some(m.compression_type()) { return Some(format!("op {}: accessors of {:?} disagree with its fields", i, m)); }
+                            if m.validate().is_err() || m.clone() != m { return Some(format!("op {}: validate / clone of the constructed {:?}", i, m)); }
                             if m3.0 == 7 && m3.2 > VL_MAX_LEN { continue; }
                             let before = w.bits_written();
                             match encode_match(&m, &mut w) {
